@@ -55,6 +55,15 @@ func genMacro(r *Rand, tier string, emit func(sx.Sx)) {
 	for _, f := range fixed {
 		emit(sx.S(f))
 	}
+	// macro names inside (terminated and unterminated) literals of growing length: the look-ahead that
+	// skips literals must stay linear in the text that follows the name
+	for _, n := range []int{5, 10, 15, 20, 24, 28, 40, 80, 200} {
+		tail := strings.Repeat("client library build x", n/22+1)[:n]
+		emit(sx.S("request.headers[\"User-Agent\"] == \"http " + tail + "\""))
+		emit(sx.S("request.path.startsWith(\"redis://" + tail + "\")"))
+		emit(sx.S("http and response.status == 200 and request.method.startsWith(\"" + tail))
+		emit(sx.S("\"" + tail + " kafka " + tail + "\" == a and amqp"))
+	}
 	// every macro name in every context
 	pre := []string{"", " ", "(", "!", "x", ".", "_", "9", "\"", "a.", "== "}
 	post := []string{"", " ", ")", "x", ".", "_", "2", "\"", ".b", " and true", "=="}
